@@ -377,7 +377,29 @@ class Traversal:
                 if m.get("k") == "Match" and m.get("source", "").startswith("ForLoopDesugar"):
                     for a in m["arms"]:
                         if hir.pat_variant(a["pat"]).endswith("Some"):
-                            # element binding: access path of the iterable is resolved by the caller
+                            # element binding: `for x in <iterable>` visits every element of a complete
+                            # iteration exactly once
+                            envb = dict(env)
+                            src = None
+                            par = self.fn.parent(n)
+                            for _ in range(6):
+                                if par is None:
+                                    break
+                                if par.get("k") == "Match" and par.get("source", "").startswith("ForLoopDesugar") and hir.is_call(hir.peel(par["scrut"])):
+                                    it = hir.call_args(hir.peel(par["scrut"]))
+                                    if it:
+                                        src, complete = self._iter_source(it[0], env)
+                                        if src is None:
+                                            src = self.access_path(it[0], env)
+                                            complete = True
+                                    break
+                                par = self.fn.parent(par)
+                            if src not in (None, "VISITOR"):
+                                for b, proj in hir.pat_binding_projs(a["pat"]):
+                                    envb[b["local"]] = src + (("elem",) if complete else ("elem-partial",),) + tuple(proj[1:])
+                                body_paths = self.paths(a["body"], envb, depth)
+                                # like for_each: the body runs once per element
+                                return [Path(p.conds + [{"t": "loop"}], p.effects, False, p.unknown) for p in body_paths]
                             return [p.then(Path(conds=[{"t": "loop"}])) for p in self.paths(a["body"], env, depth)] + [Path()]
             return [Path(unknown=["unrecognised for-loop desugaring at %s" % hir.loc(n)])]
         return [Path(unknown=["loop at %s" % hir.loc(n)])]
